@@ -1,15 +1,17 @@
-(* Evaluation of the C20 model on harness-written cases (correspondence check).
-   One case = one block executed by the real VMExecutor loop (miner executors, MinerManager, RefundManager,
-   AccountDB) on an in-memory state, between two block boundaries:
-     - the id universe in storage-trie order, the contract accounts, the account universe, the tracked
-       escrow heights;
-     - the state observed on the implementation before the block (every registered record read through
-       GetMinerById, balances, escrow);
-     - the block (height, transactions as model terms);
-     - observed: the result class of every transaction, the state after the boundary, and what the
-       iterator-based entry points return on it. *)
-From Coq Require Import List ZArith NArith Bool.
-From V.C20 Require Import Model.
+(* Evaluation of the C20 key-level model (KeyModel.v) on harness-written cases (correspondence check).
+   One case = a state observed on the implementation at a block boundary and one or more blocks executed by the real
+   VMExecutor loop (miner executors, MinerManager, RefundManager, RewardCalculator via the real after(), AccountDB):
+     - the id universe in storage-trie order and the storage keys: the key of every id and the table of common.Sha256
+       over the id bytes and their chains, with keys INTERNED by the harness (a small number per distinct real key byte
+       string; the real bytes are in the case's JSON description, cases.jsonl) (so that keys of different ids that coincide in the implementation coincide in the model);
+     - account universe (byte strings, some not 20 bytes), BytesToAddress on them, contract accounts, address universe
+       for the balances, tracked escrow heights;
+     - per block: height, transactions, and AFTER EVERY TRANSACTION (read by a probe transaction inside the running
+       block): result class, every record GetMinerById finds, GetMinerIdByAccount for every account, the ids the
+       iterator yields per kind, every balance; the rewards the after() phase scheduled with the inputs of the reward
+       formula; the state after the boundary and the iterator-based entry points on it. *)
+From Coq Require Import List ZArith NArith Bool String.
+From V.C20 Require Import Model KeyModel.
 Import ListNotations.
 Local Open Scope Z_scope.
 
@@ -17,33 +19,60 @@ Local Open Scope Z_scope.
 Definition mrec := (N * N * N * N * N * N)%type.
 
 Record ostate := { o_miners : list mrec;         (* kind 0 first, ids in universe order *)
-                   o_bal : list (N * Z);         (* account, balance; every account of the universe *)
-                   o_esc : list (N * N * Z) }.   (* height, account, amount; non-zero entries *)
+                   o_bals : list (N * Z);        (* address, balance; every address of the universe *)
+                   o_esc : list (N * N * Z) }.   (* height, address, amount; non-zero entries *)
 
-Definition load_cur (ms : list mrec) : regmap :=
-  fold_right (fun (m : mrec) r =>
+Record txobs := { t_res : N; t_miners : list mrec; t_byacct : list (option N); t_it0 : list N; t_it1 : list N;
+                  t_bal : list (N * Z) }.
+
+Record oviews := { v_by_account : list (option N); v_iter0 : list N; v_iter1 : list N;
+                   v_total : N; v_count : N; v_all0 : list (N * N); v_all1 : list (N * N); v_vstake : N }.
+
+Record blk := { b_h : N; b_txs : list tx; b_obs : list txobs;
+                b_rewards : list (N * N * Z);                  (* observed: height, address, amount *)
+                b_rinfo : option (N * list N * Z);             (* castor id, group members, blocks per epoch *)
+                b_post : ostate; b_qh : N; b_views : oviews }.
+
+Record case := { c_ids : list N; c_idkeys : list (N * N); c_H : list (N * N);
+                 c_au64 : list (N * N); c_addr : list (N * N);
+                 c_contracts : list N; c_accts : list N; c_addrs : list N; c_heights : list N;
+                 c_pre : ostate; c_blocks : list blk }.
+
+Definition tblN {A} (t : list (N * A)) (d : N -> A) (i : N) : A :=
+  match find (fun p => N.eqb (fst p) i) t with Some p => snd p | None => d i end.
+
+Section Case.
+Variable c : case.
+Let H := tblN (c_H c) (fun x => (2 * x + 1)%N).
+Let idkey := tblN (c_idkeys c) (fun _ => 0%N).
+Let au64 := tblN (c_au64 c) (fun _ => 0%N).
+Let addr_of := tblN (c_addr c) (fun a => a).
+Let e : env := {| ids := c_ids c; contract := fun a => existsb (N.eqb a) (c_contracts c) |}.
+
+Definition vw (s : kst) : st := view H idkey au64 s.
+
+Definition load_store (ms : list mrec) : kstore :=
+  fold_left (fun st (m : mrec) =>
     let '(k, i, ap, stk, ac, stt) := m in
-    updr r k i {| s_info := Some ap; s_stake := stk; s_acct := ac; s_stat := stt |}) (fun _ _ => slot0) ms.
+    k_apply_w H idkey (k_apply_w H idkey st (WNew k i ap stk ac)) (WUpd k i stk ac stt)) ms (fun _ _ => None).
 
-Definition load_bal (l : list (N * Z)) : bals :=
-  fold_right (fun p b => upd b (fst p) (snd p)) (fun _ => 0) l.
+Definition load_bal (l : list (N * Z)) : bals := fold_right (fun p b => upd b (fst p) (snd p)) (fun _ => 0) l.
 
-(* a state at a block boundary: the trie holds exactly the registered json entries *)
-Definition load (o : ostate) : st :=
-  let c := load_cur (o_miners o) in
-  {| cur := c; trie := fun k i => s_info (c k i); bal := load_bal (o_bal o); pend := []; esc := o_esc o; burned := 0 |}.
+Definition load (o : ostate) : kst :=
+  let st := load_store (o_miners o) in
+  {| kcur := st; ktrie := st; kbal := load_bal (o_bals o); kpend := []; kesc := o_esc o; kburned := 0 |}.
 
-Definition dump_miners (I : list N) (s : st) : list mrec :=
+Definition dump_miners (s : st) : list mrec :=
   flat_map (fun k => flat_map (fun i =>
      match by_id s k i with
      | Some sl => [(k, i, match s_info sl with Some a => a | None => 0%N end, s_stake sl, s_acct sl, s_stat sl)]
-     | None => [] end) I) [0%N; 1%N].
+     | None => [] end) (c_ids c)) [0%N; 1%N].
 
 Definition esc_at (l : list (N * N * Z)) (h a : N) : Z :=
   fold_right (fun (x : N * N * Z) acc => let '(h', a', v) := x in if (N.eqb h' h && N.eqb a' a)%bool then v + acc else acc) 0 l.
 
-Definition dump_esc (H A : list N) (s : st) : list (N * N * Z) :=
-  flat_map (fun h => flat_map (fun a => let v := esc_at (esc s) h a in if v =? 0 then [] else [(h, a, v)]) A) H.
+Definition dump_esc (s : st) : list (N * N * Z) :=
+  flat_map (fun h => flat_map (fun a => let v := esc_at (esc s) h a in if v =? 0 then [] else [(h, a, v)]) (c_addrs c)) (c_heights c).
 
 Definition mrec_eqb (x y : mrec) : bool :=
   let '(a1, a2, a3, a4, a5, a6) := x in let '(b1, b2, b3, b4, b5, b6) := y in
@@ -63,42 +92,79 @@ Definition nn_eqb (x y : N * N) : bool := (N.eqb (fst x) (fst y) && N.eqb (snd x
 Definition optn_eqb (x y : option N) : bool :=
   match x, y with Some a, Some b => N.eqb a b | None, None => true | _, _ => false end.
 
-(* what the iterator-based entry points returned on the state after the boundary *)
-Record oviews := { v_by_account : list (option N);   (* GetMinerIdByAccount for every account of A (and the empty one first) *)
-                   v_iter0 : list N; v_iter1 : list N; (* ids met by the iterator, per kind, in order *)
-                   v_total : N; v_count : N;           (* GetProposerTotalStakeWithDetail(qh) *)
-                   v_all0 : list (N * N); v_all1 : list (N * N); (* GetAllMinerIdAndAccount(qh), id order *)
-                   v_vstake : N }.                     (* GetValidatorsStake(all ids) *)
+(* one transaction's observation against the model state after it *)
+Definition txobs_ok (x : res * kst) (o : txobs) : bool :=
+  let s := vw (snd x) in
+  N.eqb (res_code (fst x)) (t_res o)
+  && list_eqb mrec_eqb (dump_miners s) (t_miners o)
+  && list_eqb optn_eqb (map (by_account e s) (0%N :: c_accts c)) (t_byacct o)
+  && list_eqb N.eqb (iter_ids e s 0) (t_it0 o)
+  && list_eqb N.eqb (iter_ids e s 1) (t_it1 o)
+  && list_eqb nz_eqb (map (fun a => (a, bal s a)) (c_addrs c)) (t_bal o).
 
-Record case := { c_ids : list N; c_contracts : list N; c_accts : list N; c_heights : list N;
-                 c_pre : ostate; c_h : N; c_txs : list tx;
-                 c_res : list N; c_post : ostate; c_qh : N; c_views : oviews }.
+Fixpoint all2 {A B} (f : A -> B -> bool) (a : list A) (b : list B) : bool :=
+  match a, b with
+  | [], [] => true
+  | x :: a', y :: b' => f x y && all2 f a' b'
+  | _, _ => false
+  end.
 
-Definition env_of (c : case) : env :=
-  {| ids := c_ids c; contract := fun a => existsb (N.eqb a) (c_contracts c) |}.
+(* the reward amounts against the exact formula on the model's own registry views: relative 2^-40 plus 16 wei *)
+Fixpoint lookup (m : list (N * Z)) (a : N) : Z :=
+  match m with [] => 0 | (x, v) :: r => if N.eqb x a then v else lookup r a end.
+Definition close (obs num den : Z) : bool :=
+  Z.abs (obs * den - num) * 1099511627776 <=? num + 16 * den * 1099511627776.
+Definition reward_ok (s : st) (h : N) (ri : option (N * list N * Z)) (rw : list (N * N * Z)) : bool :=
+  match ri with
+  | None => match rw with [] => true | _ => false end
+  | Some (castor, members, bpe) =>
+    let rs := map (fun x : N * N * Z => (snd (fst x), snd x)) rw in
+    let ps := reward_proposers addr_of e s h in
+    let vs := reward_validators addr_of s members in
+    let epoch := Z.of_N h / bpe in
+    let num := reward_num epoch in
+    let den := reward_den epoch bpe * reward_weight_total ps vs in
+    let ws := reward_weights (reward_castor addr_of s castor) ps vs in
+    forallb (fun p => close (lookup rs (fst p)) (num * snd p) den) ws
+    && forallb (fun p => close (snd p) (num * lookup ws (fst p)) den) rs
+    && (sum_snd ws <=? reward_weight_total ps vs)
+  end.
 
-Definition check (c : case) : bool :=
-  let e := env_of c in
-  let '(s, rs) := run_block e (c_h c) (c_txs c) (load (c_pre c)) in
-  let v := c_views c in
-  list_eqb N.eqb (map res_code rs) (c_res c)
-  && list_eqb mrec_eqb (dump_miners (c_ids c) s) (o_miners (c_post c))
-  && list_eqb nz_eqb (map (fun a => (a, bal s a)) (c_accts c)) (o_bal (c_post c))
-  && list_eqb esc_eqb (dump_esc (c_heights c) (c_accts c) s) (o_esc (c_post c))
-  && list_eqb optn_eqb (map (by_account e s) (0%N :: c_accts c)) (v_by_account v)
-  && list_eqb N.eqb (iter_ids e s 0) (v_iter0 v)
-  && list_eqb N.eqb (iter_ids e s 1) (v_iter1 v)
-  && N.eqb (proposer_total e s (c_qh c)) (v_total v)
-  && N.eqb (proposer_count e s (c_qh c)) (v_count v)
-  && list_eqb nn_eqb (all_id_account e s 0 (c_qh c)) (v_all0 v)
-  && list_eqb nn_eqb (all_id_account e s 1 (c_qh c)) (v_all1 v)
-  && N.eqb (validators_stake s (c_ids c)) (v_vstake v).
+Definition block_ok (s0 : kst) (b : blk) : kst * bool :=
+  let '(s1, xs) := k_run_txs H idkey au64 e (b_h b) (b_txs b) s0 in
+  let s2 := k_end_block (b_h b) (b_rewards b) s1 in
+  let s := vw s2 in
+  let v := b_views b in
+  (s2,
+   all2 txobs_ok xs (b_obs b)
+   && reward_ok (vw s1) (b_h b) (b_rinfo b) (b_rewards b)
+   && list_eqb mrec_eqb (dump_miners s) (o_miners (b_post b))
+   && list_eqb nz_eqb (map (fun a => (a, bal s a)) (c_addrs c)) (o_bals (b_post b))
+   && list_eqb esc_eqb (dump_esc s) (o_esc (b_post b))
+   && list_eqb optn_eqb (map (by_account e s) (0%N :: c_accts c)) (v_by_account v)
+   && list_eqb N.eqb (iter_ids e s 0) (v_iter0 v)
+   && list_eqb N.eqb (iter_ids e s 1) (v_iter1 v)
+   && N.eqb (proposer_total e s (b_qh b)) (v_total v)
+   && N.eqb (proposer_count e s (b_qh b)) (v_count v)
+   && list_eqb nn_eqb (map (fun p => (fst p, addr_of (snd p))) (all_id_account e s 0 (b_qh b))) (v_all0 v)
+   && list_eqb nn_eqb (map (fun p => (fst p, addr_of (snd p))) (all_id_account e s 1 (b_qh b))) (v_all1 v)
+   && N.eqb (validators_stake s (c_ids c)) (v_vstake v)).
+
+Definition check_blocks : bool :=
+  snd (fold_left (fun (acc : kst * bool) b => let '(s, ok) := acc in let '(s', ok') := block_ok s b in (s', ok && ok'))
+                 (c_blocks c) (load (c_pre c), true)).
+End Case.
+
+Definition check (c : case) : bool := check_blocks c.
 
 (* short constructors for the case files *)
 Definition OS (m : list mrec) (b : list (N * Z)) (e : list (N * N * Z)) : ostate :=
-  {| o_miners := m; o_bal := b; o_esc := e |}.
+  {| o_miners := m; o_bals := b; o_esc := e |}.
+Definition TO r m ba i0 i1 b : txobs := {| t_res := r; t_miners := m; t_byacct := ba; t_it0 := i0; t_it1 := i1; t_bal := b |}.
 Definition VW ba i0 i1 t c a0 a1 vs : oviews :=
   {| v_by_account := ba; v_iter0 := i0; v_iter1 := i1; v_total := t; v_count := c; v_all0 := a0; v_all1 := a1; v_vstake := vs |}.
-Definition CS i ct ac hs pre h txs rs post qh vw : case :=
-  {| c_ids := i; c_contracts := ct; c_accts := ac; c_heights := hs; c_pre := pre; c_h := h; c_txs := txs;
-     c_res := rs; c_post := post; c_qh := qh; c_views := vw |}.
+Definition BK h txs obs rw ri post qh vw : blk :=
+  {| b_h := h; b_txs := txs; b_obs := obs; b_rewards := rw; b_rinfo := ri; b_post := post; b_qh := qh; b_views := vw |}.
+Definition CS i ik ht au ad ct ac aa hs pre bs : case :=
+  {| c_ids := i; c_idkeys := ik; c_H := ht; c_au64 := au; c_addr := ad; c_contracts := ct; c_accts := ac; c_addrs := aa;
+     c_heights := hs; c_pre := pre; c_blocks := bs |}.
